@@ -111,6 +111,7 @@ class Store(object):
         self.reads = []
         self.lists = []
         self.crash_after = None   # raise InjectedCrash instead of performing mutation number crash_after (0-based)
+        self.refuse_nth = None    # refuse (InjectedCrash) ONE mutation, the one after this many further mutations; later ones pass
         self.offthread_arrivals = 0
         self.inflight = 0
         self._arrival_lock = threading.Lock()
@@ -137,6 +138,11 @@ class Store(object):
     def _mutate(self, entry):
         if self.crash_after is not None and len(self.log) >= self.crash_after:
             raise InjectedCrash(repr(entry))
+        if self.refuse_nth is not None:
+            if self.refuse_nth <= 0:
+                self.refuse_nth = None
+                raise InjectedCrash(repr(entry))
+            self.refuse_nth -= 1
         self.log.append(entry)
 
 
